@@ -2,6 +2,7 @@
 reflexive, symmetric, equal => equal hashes, a model equals an independently rebuilt order-permuted copy, every
 single-point structural edit makes it unequal; hash-then-edit sequences."""
 import copy
+import json
 from standin.props.common import *
 from standin import models as M
 from flamapy.metamodels.fm_metamodel.models import Feature, Relation
@@ -68,6 +69,15 @@ def single_edits(desc, rng):
                     if others:
                         others[0]['relations'].append({'min': 0, 'max': 1, 'children': [c]})
                         out.append(('move', d))
+    # an edit that makes one constraint coincide with another one of the model (duplicates are legal)
+    cs = desc.get('ctcs', [])
+    for ci in range(len(cs)):
+        for cj in range(len(cs)):
+            if ci != cj and json.dumps(cs[ci]['ast']) != json.dumps(cs[cj]['ast']):
+                d = copy.deepcopy(desc)
+                d['ctcs'][ci]['ast'] = copy.deepcopy(cs[cj]['ast'])
+                out.append((f'constraint {ci} becomes a copy of constraint {cj}', d))
+                break
     for ci in range(len(desc.get('ctcs', []))):
         d = copy.deepcopy(desc)
         a = d['ctcs'][ci]['ast']
